@@ -626,7 +626,12 @@ async fn dispatch(op: String, a: Value) -> Value {
         },
         "write_event" => {
             event_logger::write_event(
-                LoggerLevel::Info,
+                match a.get("level").and_then(|v| v.as_str()).unwrap_or("Info") {
+                    "Error" => LoggerLevel::Error,
+                    "Warn" => LoggerLevel::Warn,
+                    "Trace" => LoggerLevel::Trace,
+                    _ => LoggerLevel::Info,
+                },
                 s(&a, "message"),
                 "verif",
                 "verif",
